@@ -225,7 +225,7 @@ private def histGroups : PM :=
   step asIs orcAB (step asIs orcAB (step asIs orcAB (initPM [⟨nRA, true, 0, 0⟩]) (.pub nCam1))
     (.reload [⟨nRB, true, 0, 0⟩])) (.deliver nCam1 0)
 
-private theorem okPub : okEv (initPM [⟨nRA, true, 0, 0⟩]) (.pub nCam1) := by
+theorem okPub : okEv (initPM [⟨nRA, true, 0, 0⟩]) (.pub nCam1) := by
   show ∀ p ∈ (initPM [⟨nRA, true, 0, 0⟩]).paths, p.name = nCam1 → p.mailbox = []
   decide
 
